@@ -33,6 +33,21 @@ class CannotGenerate(Exception):
 
 _greedy_cache: dict = {}
 
+# Values a type decoded from bytes but cannot encode and decode back to themselves.  They are not used
+# as test values (no expectation can be stated for them), but they are not swept under the carpet
+# either: the checks that own the codec clause (C07) read this list and judge it.
+ROUNDTRIP_FAILURES: list = []
+ROUNDTRIP_COUNTS: dict = {}
+
+
+def note_roundtrip_failure(T, v, enc, v2, rest):
+    name = getattr(T, "__name__", repr(T))
+    ROUNDTRIP_COUNTS[name] = ROUNDTRIP_COUNTS.get(name, 0) + 1
+    if len(ROUNDTRIP_FAILURES) < 50:
+        ROUNDTRIP_FAILURES.append({"type": name, "module": getattr(T, "__module__", "?"), "value": repr(v)[:300],
+                                   "encoded": None if enc is None else bytes(enc).hex(), "decoded_again": repr(v2)[:300],
+                                   "rest": rest.hex() if isinstance(rest, (bytes, bytearray)) else rest})
+
 
 def gen_value(T, rnd: random.Random, mode: str | None = None):
     """-> (value, encoded bytes consumed by the deserialiser)."""
@@ -71,9 +86,11 @@ def gen_value(T, rnd: random.Random, mode: str | None = None):
             v2, r2 = T.deserialize(enc)
             if r2 or v2 != v:
                 last = ValueError("type-level round trip differs")
+                note_roundtrip_failure(T, v, enc, v2, r2)
                 continue
         except Exception as e:  # noqa: BLE001
             last = e
+            note_roundtrip_failure(T, v, None, None, repr(e))
             continue
         return v, enc
     raise CannotGenerate(f"{T}: {last!r}")
